@@ -525,8 +525,31 @@ pub fn run_schedule(
         shared.cv.notify_all();
         drop(st);
     }
-    for h in handles {
-        h.join().ok();
+    // Release whatever is still parked (after a violation or a watchdog): the
+    // remaining actors are killed so that their threads can be joined.
+    let release_deadline = Instant::now() + Duration::from_secs(20);
+    loop {
+        let mut st = shared.state.lock().unwrap();
+        if st.actors.iter().all(|a| matches!(a, ActorState::Finished { .. })) {
+            break;
+        }
+        for i in 0..st.actors.len() {
+            if !matches!(st.actors[i], ActorState::Finished { .. }) {
+                st.grants[i] = Some(Grant::Kill);
+            }
+        }
+        shared.cv.notify_all();
+        let _unused = shared.cv.wait_timeout(st, Duration::from_millis(20)).unwrap();
+        if Instant::now() > release_deadline {
+            break;
+        }
+    }
+    if Instant::now() <= release_deadline {
+        for h in handles {
+            h.join().ok();
+        }
+    } else if result.violation.is_none() && result.inconclusive.is_none() {
+        result.inconclusive = Some("actors could not be released".into());
     }
     verif_hooks::set_handler(None);
     verif_hooks::set_locks_disabled(false);
@@ -738,6 +761,47 @@ fn run_job(job: &Value) -> Value {
     })
 }
 
+/// Runs a child process, killing it after `limit` (an `Err` then).
+pub fn run_with_timeout(
+    command: &mut std::process::Command,
+    limit: Duration,
+) -> std::io::Result<std::process::Output> {
+    use std::io::Read as _;
+    let mut child = command
+        .stdout(std::process::Stdio::piped())
+        .stderr(std::process::Stdio::piped())
+        .spawn()?;
+    let mut stdout = child.stdout.take().unwrap();
+    let mut stderr = child.stderr.take().unwrap();
+    let out_thread = std::thread::spawn(move || {
+        let mut buf = vec![];
+        stdout.read_to_end(&mut buf).ok();
+        buf
+    });
+    let err_thread = std::thread::spawn(move || {
+        let mut buf = vec![];
+        stderr.read_to_end(&mut buf).ok();
+        buf
+    });
+    let start = Instant::now();
+    let status = loop {
+        if let Some(status) = child.try_wait()? {
+            break status;
+        }
+        if start.elapsed() > limit {
+            child.kill().ok();
+            child.wait().ok();
+            return Err(std::io::Error::new(std::io::ErrorKind::TimedOut, "child timed out"));
+        }
+        std::thread::sleep(Duration::from_millis(20));
+    };
+    Ok(std::process::Output {
+        status,
+        stdout: out_thread.join().unwrap_or_default(),
+        stderr: err_thread.join().unwrap_or_default(),
+    })
+}
+
 fn configs() -> Vec<Config> {
     use ActorKind::*;
     use InitState::*;
@@ -852,10 +916,12 @@ pub fn run_c14(ctx: &Ctx) -> i32 {
                     if i >= jobs.len() {
                         break;
                     }
-                    let out = std::process::Command::new(&exe)
-                        .args(["C14", tier.as_str(), "--job", &serde_json::to_string(&jobs[i]).unwrap()])
-                        .env("VERIF_SEED", (ctx.seed() as i64).to_string())
-                        .output();
+                    let out = run_with_timeout(
+                        std::process::Command::new(&exe)
+                            .args(["C14", tier.as_str(), "--job", &serde_json::to_string(&jobs[i]).unwrap()])
+                            .env("VERIF_SEED", (ctx.seed() as i64).to_string()),
+                        Duration::from_secs(tier.pick(600, 3600)),
+                    );
                     match out {
                         Ok(out) => {
                             let text = String::from_utf8_lossy(&out.stdout);
